@@ -89,7 +89,7 @@ func GenerateIdleStall(seed int64, m, firstID int) []Scenario {
 					{NReq: 2, Submit: Trigger{Kind: "start"},
 						Opt: OptSpec{Retries: 3, HardMs: hourMs, IdleMs: 100}},
 					{NReq: 3, Submit: Trigger{Kind: "deliveries", N: 1, FallbackMs: 2000},
-						Opt: OptSpec{Retries: -1, NoRetryMax: true, HardMs: -1, IdleMs: 100}},
+						Opt: OptSpec{Retries: -1, NoRetryMax: true, HardMs: 20000, IdleMs: 100}},
 				},
 			}
 		default:
@@ -126,7 +126,9 @@ func genIdleStall(rng *rand.Rand) Scenario {
 		case 2:
 			o.Retries = 1 + rng.Intn(3)
 		}
-		switch pickW(rng, 35, 25, 15, 15, 10) {
+		// (Timeout(0) means "already expired": the first job result ends the
+		// batch.)
+		switch pickW(rng, 40, 25, 5, 15, 15) {
 		case 0:
 			o.HardMs = hourMs
 		case 2:
